@@ -35,10 +35,21 @@ class Placer:
         self.ch = ch
         self.n = 0
         self.placed = []   # dicts: text, kind, claimed, key/type, path
+        self.texts = []
 
     def new(self, kind, hash_only=False):
+        c = self._new(kind, hash_only)
+        self.texts.append(c)
+        return c
+
+    def _new(self, kind, hash_only=False):
         self.n += 1
         ch = self.ch
+        if self.texts and ch.chance(1, 7):
+            # the same comment text a second time (a repeated banner, the same TODO on two lines)
+            again = [c for c in self.texts if c.startswith("#") or not hash_only]
+            if again:
+                return ch.choice(again)
         body = f"c{self.n} {kind}" + ch.choice(["", " note", " END", " LAYER x", " 'q'", " 100%", ' "dq', " caf\u00e9 \u8def", " ## x", " #! y", "  two  spaces", " back\\", " */ x" if False else " a*b", " [a] (b) {c}", " /path/x.map"])
         if ch.chance(1, 4):
             # any text may stand in a comment: a drawn string of any class (no line break, no comment terminator)
@@ -216,38 +227,55 @@ def check_comments(src, placed, case, opts=None):
             for k in range(oc.off, oc.off + len(oc.raw)):
                 chars[k] = " "
         blank = "".join(chars)
-        for p in placed:
+        # texts may repeat: every claimed comment needs an output occurrence of its own at its place, and the comments
+        # above one block must be assignable in source order
+        need = collections.Counter(p["text"] for p in placed if p["claimed"])
+        used = set()
+        last_above = {}
+        for pi, p in enumerate(placed):
             if not p["claimed"]:
                 continue
             hits = [oc for oc in out_comments if p["text"] in oc.text]
-            if not hits:
-                res.append(Discrepancy(f"placement:{p['kind']}:lost", f"claimed {p['kind']} comment {p['text']!r} of {p['of']} is missing from the output", case))
+            if len(hits) < need[p["text"]]:
+                res.append(Discrepancy(f"placement:{p['kind']}:lost", f"claimed {p['kind']} comment {p['text']!r} of {p['of']} is missing from the output "
+                                       f"({len(hits)} of {need[p['text']]} occurrence(s) left)", case))
                 break
-            oc = hits[0]
-            start = blank.rfind("\n", 0, oc.off) + 1
-            before = blank[start:oc.off].strip()
-            if p["kind"] == "eol":
-                if not before.upper().startswith(p["of"].upper() + " "):
-                    res.append(Discrepancy("placement:eol:moved", f"end-of-line comment {p['text']!r} of {p['of'].upper()} follows {before!r:.80} in the output", case))
+            good, why = [], None
+            for oc in hits:
+                start = blank.rfind("\n", 0, oc.off) + 1
+                before = blank[start:oc.off].strip()
+                if p["kind"] == "eol":
+                    if before.upper().startswith(p["of"].upper() + " "):
+                        good.append(oc.off)
+                    else:
+                        why = why or Discrepancy("placement:eol:moved", f"end-of-line comment {p['text']!r} of {p['of'].upper()} follows {before!r:.80} in the output", case)
+                else:
+                    rest = blank[oc.off + len(oc.raw):]
+                    nxt = next((ln.strip() for ln in rest.split("\n") if ln.strip()), "")
+                    if nxt == p["of"].upper() and not before:
+                        good.append(oc.off)
+                    else:
+                        why = why or Discrepancy("placement:above:moved", f"comment {p['text']!r} written above {p['of'].upper()} is followed by {nxt!r:.60} (preceded on its line by {before!r:.40}) in the output", case)
+            free = [o for o in good if o not in used]
+            if not free:
+                res.append(why or Discrepancy(f"placement:{p['kind']}:lost", f"claimed {p['kind']} comment {p['text']!r} of {p['of']} has no occurrence of its own left at its place in the output", case))
+                break
+            if p["kind"] == "above":
+                blk = (tuple(p["path"]), p["of"])
+                later = [o for o in free if o > last_above.get(blk, -1)]
+                if not later:
+                    res.append(Discrepancy("placement:above:order", f"comments above {p['of'].upper()} are written in a different order", case))
                     break
+                pick = min(later)
+                last_above[blk] = pick
             else:
-                rest = blank[oc.off + len(oc.raw):]
-                nxt = next((ln.strip() for ln in rest.split("\n") if ln.strip()), "")
-                if nxt != p["of"].upper() or before:
-                    res.append(Discrepancy("placement:above:moved", f"comment {p['text']!r} written above {p['of'].upper()} is followed by {nxt!r:.60} (preceded on its line by {before!r:.40}) in the output", case))
-                    break
-        # order of block comments
-        if not res:
-            by_block = {}
-            for p in placed:
-                if p["claimed"] and p["kind"] == "above":
-                    by_block.setdefault((tuple(p["path"]), p["of"]), []).append(p["text"])
-            for (path, of), texts in by_block.items():
-                pos = [next((oc.off for oc in out_comments if t in oc.text), -1) for t in texts]
-                if pos != sorted(pos):
-                    res.append(Discrepancy("placement:above:order", f"comments above {of.upper()} are written in a different order", case))
-                    break
+                pick = min(free)
+            used.add(pick)
     return res
+
+
+def placed_text(placed, path, of):
+    return [p["text"] for p in placed if p["claimed"] and p["kind"] == "above" and tuple(p["path"]) == tuple(path) and p["of"] == of]
 
 
 def _in_c_comment(comments, line1):
